@@ -51,6 +51,26 @@ def raise_ifs(prog, fn: FunctionInfo):
     return out
 
 
+def mask_resolver(prog, fn, params, at):
+    """expand mask-valued locals (comparisons / logical combinations) through
+    their unique reaching definition at ``at``."""
+
+    def resolve(name: ast.Name):
+        if name.id in params:
+            return None
+        defs = reaching_assignments(prog, fn, name.id, at)
+        if len(defs) == 1 and isinstance(defs[0], (ast.BinOp, ast.Compare, ast.Call, ast.UnaryOp, ast.BoolOp)):
+            d = defs[0]
+            if isinstance(d, ast.BinOp) and not isinstance(d.op, (ast.BitAnd, ast.BitOr)):
+                return None
+            if isinstance(d, ast.Call) and call_name(d) not in ("np.logical_and", "np.logical_or", "np.invert", "np.logical_not", "np.isfinite", "np.isinf"):
+                return None
+            return d
+        return None
+
+    return resolve
+
+
 def A(rel, l, r):
     from ..quant import _cmp
 
@@ -76,21 +96,7 @@ def check(ctx):
     rename = make_rename(mapping)
 
     def resolver(at):
-        def resolve(name: ast.Name):
-            if name.id in vparams:
-                return None
-            defs = reaching_assignments(prog, val, name.id, at)
-            if len(defs) == 1 and isinstance(defs[0], (ast.BinOp, ast.Compare, ast.Call, ast.UnaryOp, ast.BoolOp)):
-                # expand only mask-valued locals (comparisons / logical combos)
-                d = defs[0]
-                if isinstance(d, ast.BinOp) and not isinstance(d.op, (ast.BitAnd, ast.BitOr)):
-                    return None
-                if isinstance(d, ast.Call) and call_name(d) not in ("np.logical_and", "np.logical_or", "np.invert", "np.logical_not", "np.isfinite", "np.isinf"):
-                    return None
-                return d
-            return None
-
-        return resolve
+        return mask_resolver(prog, val, vparams, at)
 
     # ------------------------------------------------------------------ R1
     ctx.rule("R1", "every documented invalid class has a raising guard (strictness included); no undocumented rejection", floor=14)
